@@ -19,6 +19,7 @@ Inductive sclause :=
 | SCFrom (t : tref)
 | SCJoin (jt : jtype) (t : tref) (c : condarg) (lateral : bool)
 | SCWhere (c : condarg)                          (* and_where / cond_where *)
+| SCWhereChain (is_or : bool) (e : expr query)   (* the doc-hidden and_or_where(LogicalChainOper) *)
 | SCGroupBy (e : expr query)
 | SCHaving (c : condarg)                         (* and_having / cond_having *)
 | SCUnion (ut : utype) (s : select)
@@ -52,6 +53,8 @@ Definition sel_step (s : select) (c : sclause) : select :=
                  where_ groups having unions orders limit offset lock window with_ sample hints
       | SCWhere ca =>
           Select distinct selects from joins (holder_add where_ (into_condition ca)) groups having unions orders limit offset lock window with_ sample hints
+      | SCWhereChain is_or e =>
+          Select distinct selects from joins (holder_add_chain where_ is_or e) groups having unions orders limit offset lock window with_ sample hints
       | SCGroupBy e =>
           Select distinct selects from joins where_ (groups ++ [e]) having unions orders limit offset lock window with_ sample hints
       | SCHaving ca =>
@@ -189,7 +192,7 @@ Definition build_insert (cs : list iclause) : istate := fold_left ins_step cs (i
 (* ---------------- UpdateStatement / DeleteStatement ---------------- *)
 Definition upd_new : update := Update None [] [] HEmpty [] None None None.
 Inductive uclause :=
-| UCTable (t : tref) | UCFrom (t : tref) | UCValue (c : str) (e : expr query) | UCWhere (c : condarg)
+| UCTable (t : tref) | UCFrom (t : tref) | UCValue (c : str) (e : expr query) | UCWhere (c : condarg) | UCWhereChain (is_or : bool) (e : expr query)
 | UCOrderBy (o : orderexpr) | UCLimit (n : N) | UCReturning (r : returning) | UCWith (w : withclause).
 Definition upd_step (u : update) (c : uclause) : update :=
   match u with
@@ -199,6 +202,7 @@ Definition upd_step (u : update) (c : uclause) : update :=
       | UCFrom t => Update table (from ++ [t]) values where_ orders limit ret w
       | UCValue col e => Update table from (values ++ [(col, e)]) where_ orders limit ret w
       | UCWhere ca => Update table from values (holder_add where_ (into_condition ca)) orders limit ret w
+      | UCWhereChain is_or e => Update table from values (holder_add_chain where_ is_or e) orders limit ret w
       | UCOrderBy o => Update table from values where_ (orders ++ [o]) limit ret w
       | UCLimit n => Update table from values where_ orders (Some (u64_value n)) ret w
       | UCReturning r => Update table from values where_ orders limit (Some r) w
@@ -209,7 +213,7 @@ Definition build_update (cs : list uclause) : update := fold_left upd_step cs up
 
 Definition del_new : delete := Delete None HEmpty [] None None None.
 Inductive dclause :=
-| DCFrom (t : tref) | DCWhere (c : condarg) | DCOrderBy (o : orderexpr) | DCLimit (n : N)
+| DCFrom (t : tref) | DCWhere (c : condarg) | DCWhereChain (is_or : bool) (e : expr query) | DCOrderBy (o : orderexpr) | DCLimit (n : N)
 | DCReturning (r : returning) | DCWith (w : withclause).
 Definition del_step (d : delete) (c : dclause) : delete :=
   match d with
@@ -217,6 +221,7 @@ Definition del_step (d : delete) (c : dclause) : delete :=
       match c with
       | DCFrom t => Delete (Some t) where_ orders limit ret w
       | DCWhere ca => Delete table (holder_add where_ (into_condition ca)) orders limit ret w
+      | DCWhereChain is_or e => Delete table (holder_add_chain where_ is_or e) orders limit ret w
       | DCOrderBy o => Delete table where_ (orders ++ [o]) limit ret w
       | DCLimit n => Delete table where_ orders (Some (u64_value n)) ret w
       | DCReturning r => Delete table where_ orders limit (Some r) w
